@@ -1019,15 +1019,18 @@ class Dosini(object):
 
         stage_to_paths = {}
 
-        for path in stage_files:
-            # VV: remove DirPath, (.instance if present), and .conf extension and convert to lowercase
-            stage_id = os.path.split(os.path.split(path)[1])[1]
-            stage_id = stage_id.split('.')[0]
+        # VV: A stage is defined by `stage<index>.conf` (`stage<index>.instance.conf` for instances) and nothing else:
+        #     other files that happen to match the glob (stage0.orig.conf, stage1.bak.conf) must not compete with it,
+        #     the winner would depend on the order in which the file system lists them
+        pattern = re.compile(r'^stage(\d+)\.instance\.conf$' if is_instance else r'^stage(\d+)\.conf$')
 
-            # VV: skip the 'stage' part
-            stage_index = int(stage_id[5:])
+        for path in sorted(stage_files):
+            match = pattern.match(os.path.split(path)[1])
+            if match is None:
+                logger.warning("Ignoring %s - it does not define a stage" % path)
+                continue
 
-            stage_to_paths[stage_index] = path
+            stage_to_paths[int(match.group(1))] = path
 
         num_stages = len(stage_to_paths)
 
